@@ -1134,12 +1134,14 @@ def holdTasks (s : State) (ids : List (Int × String)) : State :=
               else { st with tasksToHold := st.tasksToHold ++ [(k.2, k.1)] }) s
 
 /-- `release_held_tasks`: only ids currently in `tasks_to_hold` are matched -/
+def releaseOne (qir : Bool) (st : State) (k : Int × String) : State :=
+  if !st.tasksToHold.contains (k.2, k.1) then st else
+  match st.get? k.1 k.2 with
+  | some y => releaseHeldActive st y qir
+  | none => { st with tasksToHold := st.tasksToHold.filter (· != (k.2, k.1)) }
+
 def releaseTasks (s : State) (ids : List (Int × String)) (qir : Bool := false) : State :=
-  ids.foldl (fun st k =>
-    if !st.tasksToHold.contains (k.2, k.1) then st else
-    match st.get? k.1 k.2 with
-    | some y => releaseHeldActive st y qir
-    | none => { st with tasksToHold := st.tasksToHold.filter (· != (k.2, k.1)) }) s
+  ids.foldl (releaseOne qir) s
 
 /-- `release_hold_point` -/
 def releaseHoldPoint (s : State) (qir : Bool := false) : State :=
